@@ -214,6 +214,12 @@ pub fn f4_bytes(rng: &mut Rng, name: &str) -> Def {
                 }
                 def.push(Pat::new(PatKind::Regex, Lit::b(&data), 0));
             }
+            2 if rng.chance(1, 2) => {
+                let a = *rng.pick(&['a', 'x', '0', '<']);
+                let hole = rng.pick_str(&["x", "\\x00", "\\xFF", "\\n", "a", "\\x80", "ac", "\\x00\\xFF"]);
+                let tail = rng.pick_str(&["", "b", "z+", "\\xFF"]);
+                def.push(Pat::regex(&format!("{a}(?s-u:[^{hole}]){tail}"), 0));
+            }
             2 => {
                 def.push(Pat::regex(rng.pick_str(&["(?-u:[\\x80-\\xBF])+", "(?-u:\\xFF\\xFE)", "(?-u:[^\\x00])", "\\xE2\\x82\\xAC", "(?-u:\\xE2\\x82)", "(?s-u:.)", "(?-u:[\\xC2-\\xDF])x", "(?-u:\\x00+)"]), 0));
             }
@@ -250,6 +256,19 @@ pub fn f5_look(rng: &mut Rng, name: &str) -> Def {
         def.normalize();
         return def;
     }
+    if rng.chance(1, 8) {
+        // a repetition directly followed by an end assertion, nothing unanchored beside it
+        def.family = "F5-loop-eoi".into();
+        let body = rng.pick_str(&["#", "[a-z]", "[0-9]", "(ab)", "[^ ]", "x"]);
+        let look = rng.pick_str(&["$", "\\z", "(?m:$)"]);
+        def.push(Pat::regex(&format!("{body}+{look}"), 0));
+        def.push(Pat::token(rng.pick_str(&[",", ";", "=", "\n"]), 0));
+        if rng.chance(1, 2) {
+            def.push(Pat::regex(rng.pick_str(&["[A-Z]+", "==", "[ ]+"]), 0));
+        }
+        def.normalize();
+        return def;
+    }
     if rng.chance(1, 4) {
         // the same text with and without a trailing assertion; the anchored one has the higher priority
         def.family = "F5-shadow".into();
@@ -262,6 +281,11 @@ pub fn f5_look(rng: &mut Rng, name: &str) -> Def {
         let p1 = rng.range(1, 5);
         def.push(Pat::regex(&base, 0).prio(p1));
         def.push(Pat::regex(&format!("(?:{base}){look}"), 0).prio(p1 + rng.range(1, 9)));
+        if rng.chance(1, 2) {
+            // a sibling that shares the whole text and continues exactly where the assertion fails
+            let cont = rng.pick_str(&["(?-u:\\w)+!", "[a-z0-9]+;", ".x", "[^ ]+\\.", "(?s-u:.)!"]);
+            def.push(Pat::regex(&format!("(?:{base}){cont}"), 0).prio(p1 + 12));
+        }
         if rng.chance(1, 2) {
             def.push(Pat::regex(rng.pick_str(&[";", "\\n", "[a-z]", "[a-zA-Z_][a-zA-Z0-9_]*", " "]), 0).prio(p1 + 20));
         }
@@ -321,6 +345,7 @@ pub fn f6_loops(rng: &mut Rng, name: &str) -> Def {
             2 => format!("{}*{}", rand_class(rng, &ReCfg::basic()).render().replace('.', "[a-y]"), rand_re(rng, &ReCfg::basic(), 2).render()),
             3 => format!("[a-c]{{{}}}", rng.range(5, 20)),
             4 => format!("({})+?{}", rand_re(rng, &ReCfg::basic(), 2).render(), rand_re(rng, &ReCfg::basic(), 2).render()),
+            5 if rng.chance(1, 2) => format!("{}+", rng.pick_str(&["[\\x00-\\x20]", "[\\x00-/]", "(?-u:[\\x80-\\xFF])", "(?-u:[\\xF0-\\xFF])", "[\\x00-\\x7F]", "(?s-u:[^\\x00])"])),
             5 => format!("[{}-{}]+", 'a', rng.pick(&['c', 'm', 'z'])),
             6 => rng.pick_str(&["[a-z]+[0-9]+", "[a-z0-9]+x", "([a-c][0-9])+", "[^ ]+", "[^,]+,", "\"[^\"]*\""]).to_string(),
             _ => {
@@ -694,6 +719,16 @@ pub fn f7_curated() -> Vec<Def> {
     mk(false, vec![Pat::regex("[a-c]*x", 0), Pat::regex("[a-c]*yz", 0)]);
     // anchored variant of a text next to its unanchored variant
     mk(true, vec![Pat::token("end", 0), Pat::regex("end$", 0).prio(10), Pat::token(";", 0)]);
+    mk(true, vec![Pat::regex("ab(?-u:\\b)", 0), Pat::regex("ab(?-u:\\w)+!", 0)]);
+    // a loop state whose only other way out is the end-of-input edge (no unanchored sibling)
+    mk(true, vec![Pat::regex("#+$", 0), Pat::token(",", 0), Pat::regex("[a-z]+", 0)]);
+    mk(false, vec![Pat::regex("[0-9]+\\z", 0), Pat::token(";", 0)]);
+    mk(true, vec![Pat::regex(";$", 0), Pat::regex("[a-z]+", 0), Pat::token(",", 0)]);
+    mk(true, vec![Pat::regex("#$", 0), Pat::token("=", 0), Pat::token("==", 0), Pat::regex("[a-z]+", 0), Pat::skip(" ")]);
+    // loops over contiguous classes that touch 0x00 or 0xFF (a single comparison describes them)
+    mk(true, vec![Pat::regex("[\\x00-\\x20]+", 0), Pat::regex("[a-z]+", 0)]);
+    mk(false, vec![Pat::regex("(?-u:[\\x80-\\xFF])+", 0), Pat::regex("[\\x00-/]+", 0), Pat::regex("[a-z]+", 0)]);
+    mk(false, vec![Pat::regex("[a-z]+$", 0).prio(9), Pat::regex("[a-z]+(?s-u:.)x", 0).prio(8), Pat::regex("[a-z]", 0).prio(1)]);
     mk(true, vec![Pat::regex("[a-z]+", 0), Pat::regex("[a-z]+\\z", 0).prio(9), Pat::skip(" ")]);
     mk(true, vec![Pat::token("if", 0), Pat::regex("if(?-u:\\b)", 0).prio(50), Pat::regex("[a-zA-Z_][a-zA-Z0-9_]*", 0).prio(3)]);
     mk(false, vec![Pat::regex("ab", 0), Pat::regex("ab(?m:$)", 0).prio(7), Pat::token("\n", 0), Pat::regex("abc", 0)]);
@@ -709,6 +744,15 @@ pub fn f7_curated() -> Vec<Def> {
         mk(true, pats.clone());
         mk(false, pats.into_iter().take(11).collect());
     }
+    // every comparison shape of the if-chain (at most 2 comparison operations, outside loops, <= 2 edges):
+    // range touching 0x00 with one hole, range touching 0xFF with one hole, full range with one and two
+    // holes, two separate single bytes, ASCII-restricted negated class in str mode
+    mk(true, vec![Pat::regex("x[\\x00-\\x08\\x0A-\\x1F]y", 0)]);
+    mk(false, vec![Pat::regex("x(?-u:[\\xE0-\\xEF\\xF1-\\xFF])y", 0)]);
+    mk(false, vec![Pat::regex("a(?s-u:[^x])b", 0), Pat::regex("c(?s-u:[^ac])d", 0)]);
+    mk(false, vec![Pat::regex("q(?s-u:[^\\x00])", 0), Pat::regex("r(?s-u:[^\\xFF])r", 0)]);
+    mk(true, vec![Pat::regex("<[[:ascii:]&&[^>]]>", 0), Pat::regex("k[ad]k", 0)]);
+    mk(true, vec![Pat::regex("\\[[\\x00-\\x7F&&[^\\]\\n]]\\]", 0), Pat::token("\n", 0)]);
     // only skips, no variant at all
     mk(true, vec![Pat::skip("[ \\n]+"), Pat::skip("#[a-z]*")]);
     // no pattern can ever match (empty languages): the root must not keep edges into itself
